@@ -92,14 +92,17 @@ package bscript
 //@ func bscript.addressToPubKeyHashStr
 //@   bytes token
 //@   pure
-//@   ensures[C15.addr_accept_only_valid] (=> (= err nil) (spec.addr_ok (b58dec address)))
+//@   check[C15.addr_accept_only_valid] (=> (= err nil) (spec.addr_ok (b58dec address)))
+//@   ensures[C15.addr_accept_shape] (=> (= err nil) (and (= (blen (b58dec address)) 25) (or (= (bat (b58dec address) 0) 0) (= (bat (b58dec address) 0) 111))))
 //@   ensures[C15.addr_accept_valid] (=> (spec.addr_ok (b58dec address)) (= err nil))
 //@   ensures[C15.addr_hash] (=> (= err nil) (= r0 (bhex (bsub (b58dec address) 1 21))))
 //@ func bscript.NewAddressFromString
 //@   bytes token
 //@   pure
 //@   fresh r0
-//@   ensures[C15.addr_from_string] (and (= (= err nil) (spec.addr_ok (b58dec addr))) (=> (= err nil) (and (not (nil? r0)) (= (. r0 AddressString) addr) (= (. r0 PublicKeyHash) (bhex (bsub (b58dec addr) 1 21))))))
+//@   ensures[C15.addr_from_string] (and (=> (spec.addr_ok (b58dec addr)) (= err nil)) (=> (= err nil) (and (not (nil? r0)) (= (. r0 AddressString) addr) (= (. r0 PublicKeyHash) (bhex (bsub (b58dec addr) 1 21))))))
+//@   check[C15.addr_from_string_only_valid] (=> (= err nil) (spec.addr_ok (b58dec addr)))
+//@   ensures[C15.addr_from_string_shape] (=> (= err nil) (and (= (blen (b58dec addr)) 25) (or (= (bat (b58dec addr) 0) 0) (= (bat (b58dec addr) 0) 111))))
 //@ func bscript.NewP2PKHFromPubKeyHash
 //@   bytes token
 //@   pure
@@ -125,7 +128,8 @@ package bscript
 //@   ensures[C15.append_ops_ok] (=> (forall ((k Int)) (=> (and (<= 0 k) (< k (len oo))) (or (< (old (at oo k)) 1) (> (old (at oo k)) 78)))) (= err nil))
 //@ func bscript.NewP2PKHFromAddress
 //@   bytes token
-//@   ensures[C15.p2pkh_from_address] (and (= (= err nil) (spec.addr_ok (b58dec addr))) (=> (= err nil) (and (not (nil? r0)) (= (bytes r0) (spec.p2pkh_script (bsub (b58dec addr) 1 21))))))
+//@   ensures[C15.p2pkh_from_address] (and (=> (spec.addr_ok (b58dec addr)) (= err nil)) (=> (= err nil) (and (not (nil? r0)) (= (bytes r0) (spec.p2pkh_script (bsub (b58dec addr) 1 21))))))
+//@   check[C15.p2pkh_from_address_only_valid] (=> (= err nil) (spec.addr_ok (b58dec addr)))
 //@ func bscript.NewAddressFromPublicKey
 //@   bytes token
 //@   fresh r0
